@@ -112,7 +112,7 @@ PROPS = {
                         "NodeBuilder::with_passive_inputs and TSDataObserverSet (notify-once) are not yet under contract"],
     },
     "C15": {
-        "modules": ["contracts.c03_node", "contracts.c09_nested", "contracts.c02_graph_sched"],
+        "modules": ["contracts.c03_node", "contracts.c09_nested", "contracts.c02_graph_sched", "contracts.c10_map"],
         "level": "proof",
         "design_ref": "DESIGN.md section 8, C15",
         "trusted_base": [
@@ -140,7 +140,7 @@ PROPS = {
                         "conflating and burst policies", "PushSourceSenderControl"],
     },
     "C08": {
-        "modules": ["contracts.c08_feedback"],
+        "modules": ["contracts.c08_feedback", "contracts.c20_delta"],
         "level": "proof",
         "design_ref": "DESIGN.md section 8, C08",
         "trusted_base": [
